@@ -159,6 +159,17 @@ def gen_cases(rng, tier):
             wide = b"[" + b", ".join([elem] * n) + b"]"
             for text in (b"a = " + wide + b"\n", b"a = {p = " + wide + b"}\n", b"[t]\nq.r = {p = " + wide + b", s = 1}\n"):
                 out.append(Case("doc", [text], {"kind": "limit-width", "expect": "ok"}))
+    # the limits are per construct and per nesting: many containers in a row (the empty ones included) and a dotted key next to a
+    # nested value, each below its own limit, are valid documents within the limits however large their count or their sum
+    for n in (80, 100, 300):
+        for e in (b"[]", b"[ ]", b"{}", b"[[]]", b"{x = []}", b"[1]"):
+            out.append(Case("doc", [b"".join(b"k%d = " % i + e + b"\n" for i in range(n))], {"kind": "limit-count", "expect": "ok"}))
+            out.append(Case("doc", [b"a = [" + b", ".join([e] * n) + b"]\n"], {"kind": "limit-count", "expect": "ok"}))
+            out.append(Case("doc", [b"".join(b"[[p]]\nd = " + e + b"\n" for i in range(n))], {"kind": "limit-count", "expect": "ok"}))
+    for nd, nv in ((41, 40), (50, 50), (20, 70), (77, 77)):
+        key = b".".join([b"k"] * nd)
+        out.append(Case("doc", [key + b" = " + b"[" * nv + b"1" + b"]" * nv + b"\n"], {"kind": "limit-sum", "expect": "ok"}))
+        out.append(Case("doc", [b"[t." + key + b"]\n" + key + b" = " + b"[" * nv + b"1" + b"]" * nv + b"\n"], {"kind": "limit-sum", "expect": "ok"}))
     out.extend(datetime_grid())
     return out
 
